@@ -28,9 +28,9 @@ print('suite: failing=%d extra=%s'%(len(fails),extra))
 open('$OUT/suite_result.txt','w').write('failing=%d\nextra_vs_baseline=%s\n'%(len(fails),extra))
 "
 cp $DEMO $DEST/zz_seed_demo_test.go
-go test -vet=off -count=1 -run "$RX" ./$DEST/ > $OUT/demo_with.txt 2>&1; W=$?
+go test ${DEMOFLAGS:-} -vet=off -count=1 -run "$RX" ./$DEST/ > $OUT/demo_with.txt 2>&1; W=$?
 git apply -R _out/patch.diff
-go test -vet=off -count=1 -run "$RX" ./$DEST/ > $OUT/demo_without.txt 2>&1; WO=$?
+go test ${DEMOFLAGS:-} -vet=off -count=1 -run "$RX" ./$DEST/ > $OUT/demo_without.txt 2>&1; WO=$?
 rm -f $DEST/zz_seed_demo_test.go
 echo "demo with change exit=$W (want !=0), without exit=$WO (want 0)"
 cat $OUT/suite_result.txt
